@@ -376,7 +376,7 @@ def ptr.copy {ρ} (src dst : MutPtr) (n : Nat) : M ρ Unit := fun s =>
   | .ok stor => if src.off + n ≤ stor.length then writeSelf dst.off ((stor.drop src.off).take n) s else .ub .oob
 
 /-- `ptr::copy_nonoverlapping(src, dst, n)` from a `&str` into the storage of `self` -/
-def ptr.copy_nonoverlapping {ρ} (src : ConstPtr) (dst : MutPtr) (n : Nat) : M ρ Unit := fun s =>
+def copyToSelf {ρ} (src : ConstPtr) (dst : MutPtr) (n : Nat) : M ρ Unit := fun s =>
   if n ≤ src.b.length then writeSelf dst.off (src.b.take n) s else .ub .oob
 
 /-- `str.chars()` on a mutable sub-slice of `self`, and on a `&str` -/
@@ -488,6 +488,184 @@ def U16Slice.rs_copied {ρ} (x : U16Slice) : M ρ U16Slice := pure x
 def char.decode_utf16 {ρ} (x : U16Slice) : M ρ Utf16Iter :=
   pure ⟨(decodeUtf16 x.u).map fun o => match o with | some b => .ok ⟨b, b.length⟩ | none => .err⟩
 def Utf16Iter.rs_for_each {ρ} (it : Utf16Iter) (body : Rs Chr → M ρ Unit) : M ρ Unit := forLoop body (it.items.map some)
+
+/-! ## One level down: what `heap_buffer.rs` itself is written in
+
+The functions of `HeapBuffer` are the primitives of everything above.  Their own bodies are translated too
+(`HeapBuffer.new_body`, `…realloc_body`, `…dealloc_body`, …) over the raw allocator interface below, and proved equal
+to those primitives (LSProofs/Gen/HeapBuf.lean).  A raw allocation is a block whose header has not been written yet
+(`rc = 0`, `cap` = the bytes behind the header); `ptr::write(.., Header {..})` fills in count and capacity. -/
+
+structure TextLenV where
+  w : Nat            -- the length word with the marker byte on top
+structure CapV where
+  c : Nat
+structure LayoutV where
+  size : Nat
+/-- a `*mut u8` into (or null instead of) an allocation: block address and offset from its start -/
+structure RawPtrV where
+  addr : Option Nat
+  off : Nat
+structure NonNullV where
+  addr : Nat         -- points at the text (offset `HEADER`) of block `addr`
+structure AtomicV where
+  n : Nat
+structure HeaderV where
+  count : AtomicV
+  capacity : CapV
+inductive HeaderRef | mk
+
+def TextLen {ρ} (w : Nat) : M ρ TextLenV := pure ⟨w⟩
+def Capacity {ρ} (c : Nat) : M ρ CapV := pure ⟨c⟩
+def TextLen.TAG : Nat := Gen.heapTag
+def _root_.Nat.rs_to_le {ρ} (n : Nat) : M ρ Nat := pure n
+def _root_.Nat.rs_wrapping_add {ρ} (a b : Nat) : M ρ Nat := pure ((a + b) % USIZE)
+def TextLenV.rs_get_0 {ρ} (t : TextLenV) : M ρ Nat := pure t.w
+def CapV.rs_get_0 {ρ} (c : CapV) : M ρ Nat := pure c.c
+def CapV.rs_as_usize {ρ} (c : CapV) : M ρ Nat := pure c.c
+def TextLenV.rs_is_heap {ρ} (_t : TextLenV) : M ρ Bool := pure false
+def is_len_heap_layout {ρ} (_c : CapV) : M ρ Bool := pure false
+def cold_path {ρ} : M ρ Unit := pure ()
+def size_of_usize : Nat := 8
+def size_of_Header : Nat := HEADER
+def HeapBuffer.header_offset {ρ} : M ρ Nat := pure HEADER
+def HeapBuffer.align {ρ} : M ρ Nat := pure 8
+def AtomicUsize.new {ρ} (n : Nat) : M ρ AtomicV := pure ⟨n⟩
+def Header.mk {ρ} (count : AtomicV) (capacity : CapV) : M ρ HeaderV := pure ⟨count, capacity⟩
+/-- `HeapBuffer { ptr, len }`: the two words; the handle-local length is the word without its marker -/
+def HeapBuffer.mk {ρ} (ptr : NonNullV) (len : TextLenV) : M ρ HeapBuf := pure ⟨ptr.addr, len.w ^^^ Gen.heapTag⟩
+
+/-- `layout_from_capacity` (checked additions and `Layout::from_size_align`, closures in the source): `HEADER + cap`
+bytes, refused when that exceeds what a `Layout` may describe -/
+def HeapBuffer.layout_from_capacity {ρ} (c : CapV) : M ρ (Rs LayoutV) :=
+  pure (if HEADER + c.c ≤ 2 ^ 63 - 8 then .ok ⟨HEADER + c.c⟩ else .err)
+
+/-- `alloc(layout)`: the allocator may refuse (null); a fresh block has no header yet -/
+def alloc {ρ} (l : LayoutV) : M ρ RawPtrV := fun s =>
+  if s.rf s.hp.reqs l.size then
+    .next ⟨none, 0⟩ { s with hp := { s.hp with reqs := s.hp.reqs + 1, log := .allocX l.size :: s.hp.log } }
+  else
+    .next ⟨some s.hp.slots.length, 0⟩
+      { s with hp := { slots := s.hp.slots ++ [.live { rc := 0, cap := l.size - HEADER, size := l.size,
+                                                         data := List.replicate (l.size - HEADER) JUNK }],
+                       reqs := s.hp.reqs + 1, log := .alloc l.size :: s.hp.log } }
+
+def RawPtrV.rs_is_null {ρ} (p : RawPtrV) : M ρ Bool := pure p.addr.isNone
+def RawPtrV.rs_add {ρ} (p : RawPtrV) (n : Nat) : M ρ RawPtrV := pure ⟨p.addr, p.off + n⟩
+def RawPtrV.rs_sub {ρ} (p : RawPtrV) (n : Nat) : M ρ RawPtrV := fun s => if n ≤ p.off then .next ⟨p.addr, p.off - n⟩ s else .ub .oob
+def RawPtrV.rs_cast {ρ} (p : RawPtrV) : M ρ RawPtrV := pure p
+def RawPtrV.rs_as_ptr {ρ} (p : RawPtrV) : M ρ RawPtrV := pure p
+def NonNullV.rs_as_ptr {ρ} (p : NonNullV) : M ρ RawPtrV := pure ⟨some p.addr, HEADER⟩
+def NonNull.new_unchecked {ρ} (p : RawPtrV) : M ρ NonNullV := fun s =>
+  match p.addr with
+  | some a => if p.off = HEADER then .next ⟨a⟩ s else .ub .oob
+  | none => .ub .oob
+
+/-- what `ptr::write` may store through a raw pointer: a `Header` at the start of an allocation, or — only where the
+length lives on the heap, i.e. never on a 64-bit target — a `usize` in front of it -/
+class WriteVal (τ : Type) where
+  wr : {ρ : Type} → RawPtrV → τ → M ρ Unit
+def ptr.write {ρ τ} [WriteVal τ] (p : RawPtrV) (v : τ) : M ρ Unit := WriteVal.wr p v
+instance : WriteVal Nat := ⟨fun _ _ => alarm .oob⟩
+
+/-- `ptr::write(p.cast(), Header { count, capacity })` at the start of an allocation -/
+def writeHeader {ρ} (p : RawPtrV) (h : HeaderV) : M ρ Unit := fun s =>
+  match p.addr with
+  | none => .ub .oob
+  | some a =>
+    if p.off ≠ 0 then .ub .oob else
+    match s.hp.get? a with
+    | none => .ub .useAfterFree
+    | some b => .next () { s with hp := s.hp.setBlock a { b with rc := h.count.n, cap := h.capacity.c } }
+
+instance : WriteVal HeaderV := ⟨fun p h => writeHeader p h⟩
+
+/-- `ptr::copy_nonoverlapping(text.as_ptr(), ptr.as_ptr(), n)` into the text area of a block just allocated -/
+def ptr.copy_to_block {ρ} (src : ConstPtr) (dst : RawPtrV) (n : Nat) : M ρ Unit := fun s =>
+  match dst.addr with
+  | none => .ub .oob
+  | some a =>
+    if dst.off ≠ HEADER ∨ src.b.length < n then .ub .oob else
+    match s.hp.get? a with
+    | none => .ub .useAfterFree
+    | some b => if n ≤ b.data.length then .next () { s with hp := s.hp.setBlock a { b with data := writeAt b.data 0 (src.b.take n) } }
+                else .ub .oob
+
+/-- `realloc(p, layout, new_size)`: the layout must be the one the block was allocated with; the allocator may
+refuse (null, the old block intact); otherwise the block *moves* (as the shadow heap's does), header bytes and text
+carried over up to the smaller size -/
+def realloc {ρ} (p : RawPtrV) (l : LayoutV) (newSize : Nat) : M ρ RawPtrV := fun s =>
+  match p.addr with
+  | none => .ub .oob
+  | some a =>
+    if p.off ≠ 0 then .ub .oob else
+    match s.hp.get? a with
+    | none => .ub .useAfterFree
+    | some b =>
+      if b.size ≠ l.size then .ub .badLayout
+      else if s.rf s.hp.reqs newSize then
+        .next ⟨none, 0⟩ { s with hp := { s.hp with reqs := s.hp.reqs + 1, log := .reallocX b.size newSize :: s.hp.log } }
+      else
+        let nb : Block := { rc := b.rc, cap := b.cap, size := newSize,
+                            data := padTo (newSize - HEADER) (b.data.take (min b.data.length (newSize - HEADER))) }
+        .next ⟨some s.hp.slots.length, 0⟩
+          { s with hp := { slots := (s.hp.slots.set a .freed) ++ [.live nb], reqs := s.hp.reqs + 1,
+                           log := .realloc b.size newSize :: s.hp.log } }
+
+/-- `dealloc(p, layout)` -/
+def dealloc {ρ} (p : RawPtrV) (l : LayoutV) : M ρ Unit := fun s =>
+  match p.addr with
+  | none => .ub .oob
+  | some a =>
+    if p.off ≠ 0 then .ub .oob else
+    match s.hp.slots[a]? with
+    | some (.live b) =>
+      if b.size = l.size then .next () { s with hp := { s.hp with slots := s.hp.slots.set a .freed, log := .free b.size :: s.hp.log } }
+      else .ub .badLayout
+    | some .freed => .ub .doubleFree
+    | none => .ub .useAfterFree
+
+/-- the destinations `ptr::copy_nonoverlapping` is used with: the storage of `self` (`MutPtr`, an offset) or the text
+area of another block (`RawPtrV`) -/
+class CopyDst (δ : Type) where
+  cp : {ρ : Type} → ConstPtr → δ → Nat → M ρ Unit
+instance : CopyDst RawPtrV := ⟨fun src dst n => ptr.copy_to_block src dst n⟩
+instance : CopyDst MutPtr := ⟨fun src dst n => copyToSelf src dst n⟩
+def ptr.copy_nonoverlapping {ρ δ} [CopyDst δ] (src : ConstPtr) (dst : δ) (n : Nat) : M ρ Unit := CopyDst.cp src dst n
+
+/-! ### callee names of `heap_buffer.rs` in plain form: the primitives their translated bodies are proved equal to -/
+def TextLen.new {ρ} (n : Nat) : M ρ (Rs TextLenV) := pure (if n > MAX_LEN then .err else .ok ⟨n ||| Gen.heapTag⟩)
+def Capacity.new {ρ} (c : Nat) : M ρ (Rs CapV) := pure (if c > MAX_LEN then .err else .ok ⟨c⟩)
+def amortized_growth {ρ} (len additional : Nat) : M ρ Nat := pure (Gen.amortizedGrowth len additional)
+/-- `allocate_ptr(capacity)`: layout, `alloc`, header `{count: 1, capacity}`; the text area is uninitialised -/
+def HeapBuffer.allocate_ptr {ρ} (c : CapV) : M ρ (Rs NonNullV) := fun s =>
+  if HEADER + c.c ≤ 2 ^ 63 - 8 then
+    match s.hp.allocate s.rf c.c [] with
+    | (some a, hp') => .next (.ok ⟨a⟩) { s with hp := hp' }
+    | (none, hp') => .next .err { s with hp := hp' }
+  else .next .err s
+def HeapBuffer.allocation {ρ} : M ρ RawPtrV := fun s => match s.self with | .heap a _ => .next ⟨some a, 0⟩ s | _ => .ub .oob
+def hint.unreachable_unchecked {ρ α} : M ρ α := alarm .badLayout
+def NonNullV.rs_sub {ρ} (_p : NonNullV) (_n : Nat) : M ρ RawPtrV := alarm .oob     -- only with the length on the heap
+def HeapBuffer.as_str {ρ} : M ρ Str := HeapRef.rs_as_str .mk
+def HeapBuf.rs_get_ptr {ρ} (b : HeapBuf) : M ρ NonNullV := pure ⟨b.addr⟩
+def HeapBuf.rs_set_len {ρ} (_b : HeapBuf) (_n : Nat) : M ρ Unit := alarm .oob       -- only across the 32-bit layouts
+def HeapBuffer.dealloc {ρ} : M ρ Unit := HeapRef.rs_dealloc .mk
+def HeapBuffer.assign {ρ} (b : HeapBuf) : M ρ Unit := fun s => .next () { s with self := .heap b.addr b.len }
+def HeapBuffer.is_unique {ρ} : M ρ Bool := HeapRef.rs_is_unique .mk
+
+/-! ### `&self` / `&mut self` of a `HeapBuffer` method: the two words of a heap `self` -/
+def HeapBuffer.get_ptr {ρ} : M ρ NonNullV := fun s => match s.self with | .heap a _ => .next ⟨a⟩ s | _ => .ub .oob
+def HeapBuffer.get_len {ρ} : M ρ TextLenV := fun s => match s.self with | .heap _ l => .next ⟨l ||| Gen.heapTag⟩ s | _ => .ub .oob
+def HeapBuffer.set_ptr {ρ} (p : NonNullV) : M ρ Unit := fun s =>
+  match s.self with | .heap _ l => .next () { s with self := .heap p.addr l } | _ => .ub .oob
+def HeapBuffer.set_len_field {ρ} (t : TextLenV) : M ρ Unit := fun s =>
+  match s.self with | .heap a _ => .next () { s with self := .heap a (t.w ^^^ Gen.heapTag) } | _ => .ub .oob
+/-- `self.header()`: a reference to the header of the block `self` points at -/
+def HeapBuffer.header {ρ} : M ρ HeaderRef := onHeap fun s _ _ _ => .next .mk s
+def HeaderRef.rs_get_capacity {ρ} (_ : HeaderRef) : M ρ CapV := onHeap fun s _ _ b => .next ⟨b.cap⟩ s
+def HeaderRef.rs_get_count {ρ} (_ : HeaderRef) : M ρ RcRef := onHeap fun s _ _ _ => .next .mk s
+def RcRef.rs_load {ρ} (_ : RcRef) (_o : Ord) : M ρ Nat := onHeap fun s _ _ b => .next b.rc s
 
 /-! ## Constants the source names -/
 
